@@ -6,6 +6,7 @@ import (
 	gnutar "archive/tar"
 	"bytes"
 	"context"
+	"io/ioutil"
 	"os"
 	"syscall"
 	"time"
@@ -58,6 +59,9 @@ type verifEntrySpec struct {
 
 var verifPerms = []uint32{0644, 04755, 01777, 02750}
 
+// verifConcreteInstants makes verifSymEntry pick modification times from a concrete list.
+var verifConcreteInstants bool
+
 func verifMkEntry(dir string, e verifEntrySpec) {
 	p := dir + "/" + e.name
 	switch e.kind {
@@ -84,8 +88,15 @@ func verifSymEntry(name string, kind int) verifEntrySpec {
 	e := verifEntrySpec{name: name, kind: kind, perm: verifPerms[vChoose("perm", len(verifPerms))]}
 	e.uid, e.gid = vInt("uid"), vInt("gid")
 	vAssume(e.uid >= 0 && e.uid < 1<<31 && e.gid >= 0 && e.gid < 1<<31)
-	e.mtime = vI64("mtime")
-	vAssume(e.mtime != 0) // mtime 0 means "do not set" in this code base
+	if verifConcreteInstants {
+		// concrete instants: before 1970 (negative nanosecond count), a present-day one with a
+		// nanosecond part, and one second after the epoch
+		e.mtime = []int64{-5000000123, 1600000000123456789, 1000000000}[vChoose("instant", 3)]
+	} else {
+		// any instant, kept symbolic (abstract time.Time: no 10^9 division on the way)
+		e.mtime = vI64("mtime")
+		vAssume(e.mtime != 0) // mtime 0 means "do not set" in this code base
+	}
 	switch kind {
 	case 0:
 		e.data = vBytes("content", vChoose("size", 3))
@@ -144,7 +155,16 @@ func verifCompareTrees(a, b string, names []string) {
 
 // VerifC05_DiskRoundTrip: a tree with symbolic metadata and contents on the model file
 // system is packed with Tar(LocalFS) and unpacked with UnTar(LocalFS); both trees are compared.
-func VerifC05_DiskRoundTrip() {
+func VerifC05_DiskRoundTrip() { verifDiskRoundTrip() }
+
+// VerifC05_DiskRoundTripInstants: the same with concrete modification times (before 1970,
+// present day with nanoseconds), single-entry trees.
+func VerifC05_DiskRoundTripInstants() {
+	verifConcreteInstants = true
+	verifDiskRoundTrip()
+}
+
+func verifDiskRoundTrip() {
 	vSchedFixed(true) // LocalFS feeds entries through a goroutine; its order is not the subject
 	vPreempt(0)
 	root := vTempDir()
@@ -153,6 +173,9 @@ func VerifC05_DiskRoundTrip() {
 	os.Mkdir(dst, 0755)
 	var names []string
 	shape := vChoose("shape", 5)
+	if verifConcreteInstants {
+		vAssume(shape != 3)
+	}
 	switch shape {
 	case 0:
 		verifMkEntry(src, verifSymEntry("f", 0))
@@ -278,4 +301,66 @@ func VerifC05_GnuTarNodes() {
 	case 4:
 		vAssert(h.Typeflag == gnutar.TypeSymlink && h.Linkname == "t", "symlink type or target")
 	}
+}
+
+// verifRecFS records what UnTar asks a file system to create.
+type verifRecFS struct {
+	dirs  []NodeDirectory
+	files []NodeFile
+	links []NodeSymlink
+	devs  []NodeDevice
+	data  [][]byte
+}
+
+func (r *verifRecFS) CreateDir(n NodeDirectory) error { r.dirs = append(r.dirs, n); return nil }
+func (r *verifRecFS) CreateFile(n NodeFile) error {
+	b, err := ioutil.ReadAll(n.Data)
+	r.files = append(r.files, n)
+	r.data = append(r.data, b)
+	return err
+}
+func (r *verifRecFS) CreateSymlink(n NodeSymlink) error { r.links = append(r.links, n); return nil }
+func (r *verifRecFS) CreateDevice(n NodeDevice) error   { r.devs = append(r.devs, n); return nil }
+
+// VerifC05_Codec: the archive codec alone (no file system): nodes handed to Tar by a
+// FilesystemReader come out of UnTar with the same metadata, for symbolic and for
+// concrete (pre-1970, present-day) modification times.
+func VerifC05_Codec() {
+	var mt time.Time
+	switch vChoose("instant", 3) {
+	case 0:
+		mt = time.Unix(0, vI64("mtime"))
+	case 1:
+		mt = time.Unix(0, -5000000123)
+	case 2:
+		mt = time.Unix(0, 1600000000123456789)
+	}
+	uid, gid := vInt("uid"), vInt("gid")
+	vAssume(uid >= 0 && gid >= 0)
+	perm := verifPerms[vChoose("perm", len(verifPerms))]
+	root := &File{Name: ".", Path: ".", Mode: os.ModeDir | 0755, Uid: 1, Gid: 2, ModTime: mt}
+	content := vBytes("content", 2)
+	f := &File{Name: "f", Path: "f", Mode: StatModeToFilemode(perm), Uid: uid, Gid: gid, ModTime: mt, Size: 2,
+		Data: ioutil.NopCloser(bytes.NewReader(content)), Xattrs: map[string]string{"user.k": vStr("xattr-value", 2)}}
+	l := &File{Name: "l", Path: "l", Mode: os.ModeSymlink | 0777, Uid: uid, Gid: gid, ModTime: mt, LinkTarget: "a/b"}
+	d := &File{Name: "n", Path: "n", Mode: os.ModeDevice | os.ModeCharDevice | 0600, Uid: uid, Gid: gid, ModTime: mt, DevMajor: vU64("major"), DevMinor: vU64("minor")}
+	var archive bytes.Buffer
+	err := Tar(context.Background(), &archive, &verifTreeReader{files: []*File{root, f, l, d}})
+	vAssert(err == nil, "Tar failed")
+	rec := &verifRecFS{}
+	err = UnTar(context.Background(), bytes.NewReader(archive.Bytes()), rec)
+	vCover("decoded")
+	vAssert(err == nil, "UnTar failed on an archive this code just wrote")
+	vAssert(len(rec.dirs) == 1 && len(rec.files) == 1 && len(rec.links) == 1 && len(rec.devs) == 1, "nodes lost or invented")
+	if len(rec.dirs) != 1 || len(rec.files) != 1 || len(rec.links) != 1 || len(rec.devs) != 1 {
+		return
+	}
+	g := rec.files[0]
+	vAssert(g.Name == "f" && g.Mode == f.Mode && g.UID == uid && g.GID == gid, "file path, mode or owner changed")
+	vAssert(g.MTime.Equal(mt), "file modification time changed")
+	vAssert(vEqBytes(rec.data[0], content) && g.Size == 2, "file content or size changed")
+	vAssert(len(g.Xattrs) == 1 && g.Xattrs["user.k"] == f.Xattrs["user.k"], "extended attributes changed")
+	vAssert(rec.dirs[0].MTime.Equal(mt) && rec.dirs[0].Mode == root.Mode, "directory metadata changed")
+	vAssert(rec.links[0].Target == "a/b" && rec.links[0].Name == "l" && rec.links[0].UID == uid, "symlink changed")
+	vAssert(rec.devs[0].Major == d.DevMajor && rec.devs[0].Minor == d.DevMinor && rec.devs[0].Mode == d.Mode && rec.devs[0].MTime.Equal(mt), "device node changed")
 }
